@@ -74,7 +74,23 @@ def state_diff(s1, s2, exact):
     return None
 
 
-def record_diff(r1, r2, troughs, geos):
+def geo_of(op, geos, which, rack):
+    """the labware a record of this operation addresses, resolved through the operation's own arguments (labware
+    *objects*), not through the rack label: two labware objects may carry the same name."""
+    k = op["op"]
+    if k == "transfer":
+        idx = op["src"] if which == "A" else op["dst"]
+    elif k == "distribute":
+        idx = op["src"] if which == "Rsrc" else op["dst"]
+    elif "lab" in op:
+        idx = op["lab"]
+    else:
+        return None
+    g = geos[idx] if isinstance(idx, int) and 0 <= idx < len(geos) else None
+    return g if g is not None and g.name == rack else None
+
+
+def record_diff(r1, r2, op, geos):
     """None if the EVO record r1 and the Fluent record r2 differ at most in trough positions."""
     if r1 == r2:
         return None
@@ -83,18 +99,20 @@ def record_diff(r1, r2, troughs, geos):
         return f"record types differ: {r1!r} vs {r2!r}"
     allowed = set()
     if f1[0] in ("A", "D") and len(f1) == 11 and len(f2) == 11:
-        if f1[1] in troughs and f1[1] == f2[1]:
+        g = geo_of(op, geos, f1[0], f1[1]) if f1[1] == f2[1] else None
+        if g is not None and g.trough:
             allowed = {4}
-            g = geos[f1[1]]
             try:
                 if g.from_position("evo", int(f1[4])) != g.from_position("fluent", int(f2[4])):
                     return f"positions address different wells of trough {f1[1]!r}: {r1!r} vs {r2!r}"
             except (KeyError, ValueError):
                 return f"position outside trough {f1[1]!r}: {r1!r} vs {r2!r}"
     elif f1[0] == "R" and len(f1) >= 16 and len(f2) >= 16:
-        if f1[1] in troughs and f1[1] == f2[1]:
+        gs = geo_of(op, geos, "Rsrc", f1[1]) if f1[1] == f2[1] else None
+        gd = geo_of(op, geos, "Rdst", f1[6]) if f1[6] == f2[6] else None
+        if gs is not None and gs.trough:
             allowed |= {4, 5}
-        if f1[6] in troughs and f1[6] == f2[6]:
+        if gd is not None and gd.trough:
             allowed |= {9, 10} | set(range(16, max(len(f1), len(f2))))
     n = max(len(f1), len(f2))
     for k in range(n):
@@ -116,8 +134,7 @@ def execute(world, opsource):
     flu = Session(world, device="fluent")
     base = Session(world, device="base")
     exact = world["regime"] == "quarter"
-    troughs = {s["name"] for s in world["labware"] if s["kind"] == "trough"}
-    geos = {g.name: g for g in evo.geos}
+    geos = evo.geos
     base_sync = True  # base record list == evo record list and labware states equal
     i = 0
     try:
@@ -155,7 +172,7 @@ def execute(world, opsource):
                 fail("C16.records", i, op, f"{ce}/{cf_}", f"{k} appended {len(re_) - ne} records on EVO and {len(rf) - nf} on Fluent")
                 break
             for a, b in zip(re_[ne:], rf[nf:]):
-                d = record_diff(a, b, troughs, geos)
+                d = record_diff(a, b, op, geos)
                 if d:
                     fail("C16.records", i, op, f"{ce}/{cf_}", d)
                     break
@@ -199,7 +216,7 @@ def execute(world, opsource):
 class Program:
     def __init__(self, rng, tier):
         self.rng = rng
-        opts = {"device": "evo", "patterns": ["full", "uniform", "mixed", "mixed", "empty"]}
+        opts = {"device": "evo", "patterns": ["full", "uniform", "mixed", "mixed", "empty"], "allow_same_names": True}
         if rng.random() < 0.5:
             opts["need_trough"] = True
         self.world = gen_world(rng, opts)
